@@ -45,6 +45,8 @@ def register(PROPS):
                         'both forms, k = 0 and 70; ASan: table + grammar slice, geometry every padding, map subsets <= 2',
         },
         'drivers': [
+            D('c05_manyuids', ['maxn=1000'], ['maxn=5000'], label='many-uids', shards=8),
+            D('c05_manyuids', ['maxn=400'], ['maxn=1000'], label='many-uids-asan', shards=8, variant='asan'),
             # sweep 1: field mapping
             D('c05_fields', ['mode=map', 'maxsub=3', 'minfull=15'], ['mode=map'], label='fields-map'),
             D('c05_fields', ['mode=ckpt'], label='fields-checkpoint-pairs', shards=4),
